@@ -91,4 +91,32 @@ fn render_depth_sort_orders_by_key() {
 // vertex order / cull mode / mirrored viewport, no-std build so that Stats has no timer) to decide the cull arms and the stats
 // bookkeeping: 25 min and 7.8 GB without a verdict (the Vec-based vertex/triangle/clip buffers again). The cull arms stay [U] (L4).
 
+// @ob props=C06 tier=quick kind=B cfg=core-std timeout=1800
+// @fn depth_sort
+// @bound 2 triangles whose vertices share one depth each (so the sort key is 3z, exact up to one rounding); complete in the two depths (all finite z in [-1e6, 1e6], negative clip-space depths included)
+// @clause depth sorting orders by depth for every sign of the key: after FrontToBack the nearer (smaller z) triangle comes first, after BackToFront the farther one; nothing is lost or duplicated
+#[cfg(not(verif_skip_render_depth_sort_two_flat))]
+#[kani::proof]
+#[kani::unwind(10)]
+fn render_depth_sort_two_flat() {
+    let (za, zb): (F, F) = (kani::any(), kani::any());
+    kani::assume(za >= -1.0e6 && za <= 1.0e6 && zb >= -1.0e6 && zb <= 1.0e6);
+    // the key the code sorts by; two depths one ulp apart can have equal keys after rounding (DESIGN 3a.3): no exact ties
+    let (ka, kb) = ((za + za) + za, (zb + zb) + zb);
+    kani::assume(ka != kb);
+    let mk = |z: F, tag: u8| {
+        let mut t = Tri([cv(z), cv(z), cv(z)]);
+        t.0[0].attrib = tag;
+        t
+    };
+    let mut tris = [mk(za, 1), mk(zb, 2)];
+    let ftb: bool = kani::any();
+    depth_sort(&mut tris, if ftb { DepthSort::FrontToBack } else { DepthSort::BackToFront });
+    kani::cover!(za < 0.0 && zb > 0.0 && !ftb);
+    let first_is_a = tris[0].0[0].attrib == 1;
+    assert!(tris[0].0[0].attrib + tris[1].0[0].attrib == 3);
+    assert!(first_is_a == if ftb { ka < kb } else { ka > kb });
+    assert!(tris[0].0[1].pos.z() == if first_is_a { za } else { zb });
+}
+
 include!("gen/dispatch_render.rs");
